@@ -47,7 +47,7 @@ MIN_HITS = {
         'mon:mime': 3000, 'mon:domain': 4000, 'mon:cluster': 2000, 'mon:geom': 2000, 'mon:algo': 30, 'algo-all-clients-empty': 12,
         'fully-padded-batch': 150, 'arbitrary-mask': 100, 'garbage-padding': 200, 'empty-client': 30, 'empty-domain': 400,
         'via-model': 300, 'reg:with-centre': 300, 'reg:none': 150, 'geometry:hand-built': 100, 'algo:mime': 2,
-        'algo:mime_lite': 2, 'algo:agnostic_fed_avg': 2, 'algo:hyp_cluster': 2, 'mon:eager': 1000, 'hit:eager-repeat-avgloss': 300, 'hit:cluster-losses-on-pmap': 150, 'hit:big-batch-domain-pass': 30, 'hit:loss-raised-mid-evaluation': 100,
+        'algo:mime_lite': 2, 'algo:agnostic_fed_avg': 2, 'algo:hyp_cluster': 2, 'mon:eager': 1000, 'hit:eager-repeat-avgloss': 300, 'hit:cluster-losses-on-pmap': 150, 'hit:big-batch-domain-pass': 30, 'hit:loss-raised-mid-evaluation': 100, 'hit:twin-regularizers': 100,
     },
     'thorough': {
         'mon:grad': 15000, 'mon:avgloss': 25000, 'mon:regonce': 25000, 'mon:empty': 15000, 'mon:evaluator': 20000,
@@ -745,6 +745,29 @@ def dataset_case(ctx, mods, cfgs, MK, i, rng):
     vals = [o['cl'][c] for _, o in per_geom if c < len(o['cl']) and len(o['cl'][c]) == 2]
     ctx.check(spread_ok(vals, max(exps[c]['avg_loss_scale'], exps2[c]['avg_loss_scale'])), 'geom/cluster-loss',
               'HypCluster cluster losses change with the maximization batch geometry', {**w_, 'values': vals})
+
+  # ---- twin regularizers: l2_regularizer objects built one after the other with the SAME weight but other centres / parameter
+  #      weights (a proximal term rebuilt every round): each evaluation must add ITS OWN regularizer exactly once
+  if i % 4 == 1 and n_clients:
+    c = 0
+    bts = batches_for(geoms[0], c)
+    rw = float([0.05, 0.5, 2.0][i % 3])
+    base_r = ctx.call('evaluate_average_loss', models.evaluate_average_loss, jparams, bts, keys[c], cfg.loss, None, witness=wit)
+    if base_r.ok:
+      for twin in range(3):
+        centre = {k: np.asarray(v) + np.float32(0.5 * (twin + 1)) for k, v in params.items()}
+        pw = None if twin < 2 else {k: np.full(np.shape(v), 2.0, np.float32) for k, v in params.items()}
+        reg_t = regularizers.l2_regularizer(rw, center_params={k: jnp.asarray(v) for k, v in centre.items()},
+                                            params_weights=None if pw is None else {k: jnp.asarray(v) for k, v in pw.items()})
+        want = rw * sum(float(np.sum((2.0 if pw is not None else 1.0) * (np.asarray(params[k], np.float64) - centre[k]) ** 2)) for k in params)
+        tw = {**wit, 'twin': twin, 'weight': rw, 'centre_offset': 0.5 * (twin + 1), 'params_weights': pw is not None}
+        rt = ctx.call('evaluate_average_loss', models.evaluate_average_loss, jparams, bts, keys[c], cfg.loss, reg_t, witness=tw)
+        if rt.ok:
+          got = float(rt.value) - float(base_r.value)
+          ctx.count('hit:twin-regularizers')
+          ctx.check(abs(got - want) <= 1e-4 * (abs(want) + abs(float(base_r.value)) + 1), 'regonce/avgloss-other-regularizer-instance',
+                    f'average loss with l2_regularizer(weight={rw}, centre #{twin}) minus the unregularised average loss is {got}, this '
+                    f'regularizer\'s value is {want}', {**tw, 'observed': got, 'expected': want})
 
   # ---- eager mode (jax.disable_jit): the same MATERIALISED batches evaluated repeatedly. Without jit the library code sees the
   # caller's own dict objects, so anything it does to a batch in place (dropping / rewriting the mask) shows on the next use.
